@@ -29,6 +29,7 @@ RoundTrip == Mode = "roundtrip" =>
             /\ FromDisk(ToDisk(w)) = w
             /\ \A j \in 1..Len(w) : ~(w[j] \in 97..102)                                   \* upper-case hex only
             /\ TextMatches(w, cm, bin) /\ TextMatches(w \o <<NLc>>, cm, bin)
+            /\ HexLines(bin) = HexLinesFrom(bin, 1)                                        \* the direct and the recursive formulation
 Total == Mode = "total" =>
     LET r == ReadText(t) IN
     /\ r.ok \in BOOLEAN
